@@ -51,6 +51,13 @@ func (c *Encoder) encodeCallStatement(stmt *ast.CallStatement) *Frame {
 	w.Reset()
 
 	w.Write(c.encodeIdent(stmt.Subroutine).Encode())
+	// Arguments are optional, written only when present to keep the frame of an argument-less call
+	if len(stmt.Arguments) > 0 {
+		for _, arg := range stmt.Arguments {
+			w.Write(c.encodeExpression(arg).Encode())
+		}
+		w.Write(end())
+	}
 
 	return &Frame{
 		frameType: CALL_STATEMENT,
